@@ -185,4 +185,20 @@ def holdsU (o : UObs) : Bool :=
   (o.state == 1 && o.closes == 0 && o.startOk) ||
   (o.state == 3 && o.closes == 1 && o.live == 0 && (!o.startOk || (o.ctxDone && o.isClosed)))
 
+/-! ### Close against a background loop that is mid-tick: once Close returned and the pending I/O
+was unblocked, the loop's goroutine is gone and the component is closed. -/
+
+structure GObs where
+  live : Nat              -- background goroutines of the component still alive
+  closed : Bool
+  deriving DecidableEq, Repr
+
+def gObs (c : Cfg GShared GLocal) : GObs :=
+  { live := match c.ths[1]? with
+      | some l => if l.pc == GPc.done then 0 else 1
+      | none => 0,
+    closed := c.sh.latch }
+
+def holdsG (o : GObs) : Bool := o.live == 0 && o.closed
+
 end Tunnox.C16
